@@ -319,6 +319,26 @@ def parse_range_args(c, drv):
         shutil.rmtree(tmp, ignore_errors=True)
 
 
+def staged_stdin(c):
+    """stdin arriving in fragments (a first fragment shorter than the 6-byte compression-magic probe,
+    then a pause): the output must equal the run on the same bytes delivered at once."""
+    exe = repo_bin("docenc")
+    docs = [b"a\n", b"bc\nd\n", b"", b"\xc3\xa9 e\n"]
+    b64file = b"".join(pyb64.b64encode(d) + b"\n" for d in docs)
+    st0, dec0, _ = run_tool([exe, "-d", "-q"], b64file, timeout=20)
+    for mode, argv, data in (("decode", [exe, "-d", "-q"], b64file), ("encode", [exe], dec0)):
+        ref_st, ref_out, _ = run_tool(argv, data, timeout=20)
+        for k in (1, 2, 3, 5, 6, 7):
+            if k >= len(data):
+                continue
+            st, out, err = run_staged(argv, [data[:k], data[k:]], pause=0.25, timeout=20)
+            c.count(("staged", mode, k), nontrivial=True, bucket="docenc-staged-stdin")
+            if st != ref_st or out != ref_out:
+                c.violation("docenc-staged-stdin: docenc %s with stdin delivered as %d bytes, a pause, then the rest gives %r (status %s) instead of %r (status %s)" % (
+                    mode, k, out[:120], st, ref_out[:120], ref_st),
+                    {"op": "docenc-staged", "mode": mode, "first_fragment": k, "input_hex": hexs(data), "output_hex": hexs(out), "expected_hex": hexs(ref_out), "status": st})
+
+
 def replay(c):
     """bin/check C09 --replay file: re-run the recorded input on the current tree."""
     import json
@@ -424,6 +444,7 @@ def main(argv):
     docenc_tool(c, drv)
     b64_line_tools(c)
     parse_range_args(c, drv)
+    staged_stdin(c)
     from coqchk import thorough_coqchk
     thorough_coqchk(c)
     return c.finish(level="proof",
